@@ -18,7 +18,7 @@ OCC = [1.0, 1.0, 1.0, 0.5, 0.25]
 @st.composite
 def nl_cases(draw):
     n = draw(st.integers(1, 5))
-    c = draw(st.sampled_from([1, 2, 4, 4, 8]))
+    c = draw(st.sampled_from([1, 2, 4, 4, 6, 8, 8]))
     g = draw(st.sampled_from([0, 1, 2, 4]))
     lfs = draw(st.sampled_from([0, 100, 1000]))
     mem = draw(st.sampled_from([0, 128, 1024]))
@@ -40,13 +40,39 @@ def nl_cases(draw):
         else:
             ops.append(['release', draw(st.integers(0, 9))])
     numa = 0
-    if c >= 2 and draw(st.integers(0, 2)) == 0:
-        numa = 2
+    if c >= 2 and draw(st.integers(0, 1)) == 0:
+        numa = draw(st.sampled_from([2, 3, 3]))     # 2: contiguous halves, 3: interleaved numbering
         for op in ops:
             if op[0] == 'find' and draw(st.booleans()):
                 op[1]['numa'] = True
     return {'kind': 'nodelist', 'n': n, 'c': c, 'g': g, 'lfs': lfs, 'mem': mem,
             'bc': bc, 'bg': bg, 'ops': ops, 'numa': numa}
+
+
+@st.composite
+def numa_cases(draw):
+    """NUMA-focused: every request is NUMA aware, small ranks, so that domains fill up,
+    get released and are re-used (contiguous and interleaved domain numbering)"""
+    n = draw(st.integers(1, 3))
+    c = draw(st.sampled_from([4, 6, 8, 8]))
+    g = draw(st.sampled_from([0, 2, 4]))
+    lfs = draw(st.sampled_from([0, 1000]))
+    mem = draw(st.sampled_from([0, 1024]))
+    ops = []
+    for _ in range(draw(st.integers(3, 14))):
+        if draw(st.integers(0, 4)) < 4:
+            rr = {'n_cores': draw(st.integers(1, max(1, c // 2))),
+                  'core_occupation': draw(st.sampled_from([1.0, 1.0, 0.5])),
+                  'n_gpus': draw(st.integers(0, min(1, g))),
+                  'gpu_occupation': draw(st.sampled_from([1.0, 0.5])),
+                  'lfs': draw(st.sampled_from([0, 0, lfs // 4])),
+                  'mem': draw(st.sampled_from([0, 0, mem // 4])),
+                  'numa': draw(st.integers(0, 5)) > 0}
+            ops.append(['find', rr, draw(st.integers(1, 3))])
+        else:
+            ops.append(['release', draw(st.integers(0, 5))])
+    return {'kind': 'nodelist', 'n': n, 'c': c, 'g': g, 'lfs': lfs, 'mem': mem,
+            'bc': [], 'bg': [], 'ops': ops, 'numa': draw(st.sampled_from([2, 3, 3]))}
 
 
 def run_nodelist(case):
@@ -69,8 +95,12 @@ def run_nodelist(case):
     if case.get('numa'):
         # as Pilot.nodelist builds it when the resource manager reports a numa_domain_map
         half = c // 2
-        dmap = {0: NumaDomain(cores=list(range(0, half)), gpus=list(range(0, g // 2))),
-                1: NumaDomain(cores=list(range(half, c)), gpus=list(range(g // 2, g)))}
+        if case['numa'] == 3:
+            dmap = {0: NumaDomain(cores=list(range(0, c, 2)), gpus=list(range(0, g, 2))),
+                    1: NumaDomain(cores=list(range(1, c, 2)), gpus=list(range(1, g, 2)))}
+        else:
+            dmap = {0: NumaDomain(cores=list(range(0, half)), gpus=list(range(0, g // 2))),
+                    1: NumaDomain(cores=list(range(half, c)), gpus=list(range(g // 2, g)))}
         nl = NodeList(nodes=[NumaNode(copy.deepcopy(r), dmap) for r in raw])
         stats['numa'] = 1
     else:
@@ -78,6 +108,7 @@ def run_nodelist(case):
     nl.verify()
 
     held = []          # list of slot lists (one per successful find)
+    drift = {'seen': False}
 
     def model():
         cores, gpus, lfs, mem = {}, {}, {}, {}
@@ -93,6 +124,19 @@ def run_nodelist(case):
 
     def compare(where):
         cores, gpus, lfs, mem = model()
+        # what the held slots claim (independent of the implementation's own books)
+        for (i, k), m in sorted(cores.items()):
+            if m > 1.0 + EPS:
+                P.append(('C01', 'nodelist:core_oversubscribed', '%s node %d core %d: held slots sum to %.3f'
+                          % (where, i, k, m)))
+                return False
+        for (i, k), m in sorted(gpus.items()):
+            if m > 1.0 + EPS:
+                P.append(('C01', 'nodelist:gpu_oversubscribed', '%s node %d gpu %d: held slots sum to %.3f'
+                          % (where, i, k, m)))
+                return False
+        if drift['seen']:
+            return True        # books already differ: only the model-level clauses above go on
         for node in nl.nodes:
             i = node.index
             for ro in node.cores:
@@ -108,7 +152,8 @@ def run_nodelist(case):
                 if abs((ro.occupation or 0.0) - m) > 1e-6:
                     P.append(('C03', 'nodelist:core_occupancy_drift', '%s node %d core %d: real %s model %.3f'
                               % (where, i, ro.index, ro.occupation, m)))
-                    return False
+                    drift['seen'] = True
+                    return True
             for ro in node.gpus:
                 if ro.index in bg:
                     if ro.occupation is not rpc.DOWN:
@@ -122,7 +167,8 @@ def run_nodelist(case):
                 if abs((ro.occupation or 0.0) - m) > 1e-6:
                     P.append(('C03', 'nodelist:gpu_occupancy_drift', '%s node %d gpu %d: real %s model %.3f'
                               % (where, i, ro.index, ro.occupation, m)))
-                    return False
+                    drift['seen'] = True
+                    return True
             if lfs.get(i, 0) > case['lfs']:
                 P.append(('C01', 'nodelist:lfs_oversubscribed', '%s node %d: %d > %d'
                           % (where, i, lfs.get(i, 0), case['lfs'])))
@@ -132,11 +178,13 @@ def run_nodelist(case):
             if node.lfs != case['lfs'] - lfs.get(i, 0):
                 P.append(('C03', 'nodelist:lfs_drift', '%s node %d: real %s model %s'
                           % (where, i, node.lfs, case['lfs'] - lfs.get(i, 0))))
-                return False
+                drift['seen'] = True
+                return True
             if node.mem != case['mem'] - mem.get(i, 0):
                 P.append(('C03', 'nodelist:mem_drift', '%s node %d: real %s model %s'
                           % (where, i, node.mem, case['mem'] - mem.get(i, 0))))
-                return False
+                drift['seen'] = True
+                return True
         return True
 
     for op in case['ops']:
@@ -158,8 +206,10 @@ def run_nodelist(case):
                     break
                 continue
             except Exception as e:          # noqa
-                P.append(('C02', exc_sig('nodelist:find_slots_raised', e), repr(e)))
-                break
+                if not drift.get('raised'):
+                    P.append(('C02', exc_sig('nodelist:find_slots_raised', e), repr(e)))
+                drift['raised'] = drift['seen'] = True     # books unreliable from here on
+                continue
             if slots is None:
                 stats['finds_none'] += 1
                 if not compare('after failed find'):
@@ -183,7 +233,10 @@ def run_nodelist(case):
                     P.append(('C02', 'nodelist:slot_node_invalid', str(s)))
                 if numa_req and (len(ci) if False else True):
                     half = c // 2
-                    doms = set(0 if ro.index < half else 1 for ro in s.cores)
+                    if case['numa'] == 3:
+                        doms = set(ro.index % 2 for ro in s.cores)
+                    else:
+                        doms = set(0 if ro.index < half else 1 for ro in s.cores)
                     if len(doms) > 1:
                         P.append(('C02', 'nodelist:numa_slot_spans_domains', str(s)))
                 ci = [ro.index for ro in s.cores]
